@@ -368,6 +368,9 @@ impl Engine {
             let t = self.tree.as_ref().unwrap();
             match w.kind {
                 WKind::Put => {
+                    if w.v.0.len() >= 65_536 {
+                        self.stats.inc("probe_value_of_64k_or_more");
+                    }
                     let _ = t.insert(w.k.0.as_slice(), w.v.0.as_slice(), s);
                     self.model
                         .write(&w.k.0, s, MKind::Value(w.v.0.clone()), Loc::Active);
